@@ -208,3 +208,72 @@ Theorem retarget_rejected i : (nth 1 (a_args i) [] <> a_cc i \/ nth 2 (a_args i)
 Proof.
   intros H o Ho. apply auth_sound in Ho as (n & kt & _ & H1 & H2 & _). tauto.
 Qed.
+
+(* ---- distinct signers ------------------------------------------------------------------- *)
+(* the presented key strings at the positions that hold a non-blank genuine signature *)
+Fixpoint genuine_keys (keyargs : list (list N)) (kis : list (option keyinfo)) (sigargs : list (list N))
+         (sigs : list sigv) (msg : list N) : list (list N) :=
+  match keyargs, kis, sigargs, sigs with
+  | ka :: kar, k :: kr, sa :: sr, sg :: gr =>
+    (if match sa with [] => false | _ => genuineb k msg sg end then [ka] else []) ++ genuine_keys kar kr sr gr msg
+  | _, _, _, _ => []
+  end.
+
+Lemma genuine_keys_length keyargs : forall kis sigargs sigs msg, length keyargs = length kis ->
+  length (genuine_keys keyargs kis sigargs sigs msg) = count_genuine kis sigargs sigs msg.
+Proof.
+  induction keyargs as [|ka kar IH]; intros kis sigargs sigs msg Hl; destruct kis as [|k kr]; cbn in Hl; try discriminate; [reflexivity|].
+  cbn [genuine_keys count_genuine]. destruct sigargs as [|sa sr]; [reflexivity|]. destruct sigs as [|sg gr]; [reflexivity|].
+  rewrite app_length, IH by lia. destruct (match sa with [] => false | _ => genuineb k msg sg end); reflexivity.
+Qed.
+
+Lemma genuine_keys_in keyargs : forall kis sigargs sigs msg x,
+  In x (genuine_keys keyargs kis sigargs sigs msg) -> In x keyargs.
+Proof.
+  induction keyargs as [|ka kar IH]; intros kis sigargs sigs msg x; cbn [genuine_keys]; [tauto|].
+  destruct kis as [|k kr]; [cbn; tauto|]. destruct sigargs as [|sa sr]; [cbn; tauto|]. destruct sigs as [|sg gr]; [cbn; tauto|].
+  intros H. apply in_app_or in H. destruct H as [H|H].
+  - destruct (match sa with [] => false | _ => genuineb k msg sg end); [|destruct H]. destruct H as [->|[]]. left. reflexivity.
+  - right. eapply IH, H.
+Qed.
+
+Lemma genuine_keys_nodup keyargs : forall kis sigargs sigs msg, List.NoDup keyargs ->
+  List.NoDup (genuine_keys keyargs kis sigargs sigs msg).
+Proof.
+  induction keyargs as [|ka kar IH]; intros kis sigargs sigs msg Hn; cbn [genuine_keys]; [constructor|].
+  destruct kis as [|k kr]; [constructor|]. destruct sigargs as [|sa sr]; [constructor|]. destruct sigs as [|sg gr]; [constructor|].
+  inversion Hn as [|? ? Hnotin Hn']; subst.
+  destruct (match sa with [] => false | _ => genuineb k msg sg end); cbn [app].
+  - constructor; [|apply IH, Hn']. intros Hc. apply Hnotin. eapply genuine_keys_in, Hc.
+  - apply IH, Hn'.
+Qed.
+
+(* every key in the list carries a genuine signature at its own position *)
+Lemma genuine_keys_signed keyargs : forall kis sigargs sigs msg x,
+  In x (genuine_keys keyargs kis sigargs sigs msg) ->
+  exists j k sg, nth_error keyargs j = Some x /\ nth_error kis j = Some k /\ nth_error sigs j = Some sg /\ genuine k msg sg.
+Proof.
+  induction keyargs as [|ka kar IH]; intros kis sigargs sigs msg x; cbn [genuine_keys]; [intros []|].
+  destruct kis as [|k kr]; [intros []|]. destruct sigargs as [|sa sr]; [intros []|]. destruct sigs as [|sg gr]; [intros []|].
+  intros H. apply in_app_or in H. destruct H as [H|H].
+  - destruct sa as [|c sa']; [destruct H|]. destruct (genuineb k msg sg) eqn:Eg; [|destruct H]. destruct H as [->|[]].
+    exists 0%nat, k, sg. repeat split; try reflexivity. apply genuineb_spec, Eg.
+  - destruct (IH _ _ _ _ _ H) as (j & k' & sg' & H1 & H2 & H3 & H4). exists (S j), k', sg'. repeat split; assumption.
+Qed.
+
+(* DISTINCT SIGNERS: when the presented key list has no repetition (an access-control service registers key lists
+   without repetition and answers for exactly the presented list), an accepted request carries genuine signatures
+   of at least the required number of DISTINCT presented keys *)
+Theorem auth_distinct_signers i o : auth i = Ok o -> List.NoDup (key_args i) ->
+  exists n ktypes ks, a_acl i = AclOk (r_addr o) false false n ktypes /\
+    List.NoDup ks /\ (required n (n_signers i) <= length ks)%nat /\ (1 <= length ks)%nat /\
+    forall x, In x ks -> exists j k sg, nth_error (key_args i) j = Some x /\ nth_error (the_kis i) j = Some k /\
+                                        nth_error (a_sigs i) j = Some sg /\ genuine k (the_msg i) sg.
+Proof.
+  intros Ha Hn. destruct (auth_sound i o Ha) as (n & kt & H1 & _ & _ & _ & H5 & H6).
+  exists n, kt, (genuine_keys (key_args i) (the_kis i) (sig_args i) (a_sigs i) (the_msg i)).
+  assert (Hl : length (key_args i) = length (the_kis i)) by (unfold the_kis; rewrite map_length; reflexivity).
+  split; [exact H1|]. split; [apply genuine_keys_nodup, Hn|].
+  rewrite (genuine_keys_length _ _ _ _ _ Hl). split; [exact H5|]. split; [exact H6|].
+  intros x Hx. eapply genuine_keys_signed, Hx.
+Qed.
